@@ -505,7 +505,7 @@ def run_real_a(exe, files, nlines):
 
 def run_real_b(exe, lines, prefix="b", sel=None):
     """sel: optional selector string, one character per line ('0' job + async burst, '1' + synchronous burst,
-    '2' synchronous burst only); sharded exactly like the lines."""
+    '2' / '3' synchronous burst only, on a rotating pair of managers / on all); sharded exactly like the lines."""
     files = write_shards(lines, prefix, common.NCPU)
     if sel is not None:
         assert len(sel) == len(lines)
@@ -746,8 +746,7 @@ def sync_alg_name(w, kind):
     if kind == SYNC_HASH:
         return HASHES[w[IDX["hash_alg"]]]["name"]
     d = w[IDX["dir"]]
-    return "%s-%s-%s" % (CIPHERS[w[IDX["cipher_mode"]]]["name"], w[IDX["key_len"]] * 8 if w[IDX["key_len"]] in (16, 24, 32) else "key%d" % w[IDX["key_len"]],
-                         {ENC: "ENC", DEC: "DEC"}.get(d, "dir%d" % d))
+    return "%s-%s" % (CIPHERS[w[IDX["cipher_mode"]]]["name"], {ENC: "ENC", DEC: "DEC"}.get(d, "dir%d" % d))
 
 
 def analyse_sync(recs, idx_map, lines, sync_model, errno_names):
@@ -964,7 +963,9 @@ def main(tier, seed):
         else:
             scnt["accepted-but-too-long-for-the-arena"] += 1
     bidx = sorted(inb | set(sync_model))
-    bsel = "".join(("1" if i in sync_model else "0") if i in inb else "2" for i in bidx)
+    # sync-only cases: quick tier visits a rotating pair of managers per case, thorough tier all six
+    # (job/burst cases the synchronous API cannot run keep '1': the harness prints one skip-not-applicable record for each)
+    bsel = "".join(("0" if (i in scand and i not in sync_model) else "1") if i in inb else ("2" if tier == "quick" else "3") for i in bidx)
     brecs, mgrs = run_real_b(exe, [lines[i] for i in bidx], sel=bsel)
     times["real_b"] = round(time.time() - t1, 1)
     bfails, bstats = analyse_b(brecs, bidx, lines, tags, model)
@@ -1087,11 +1088,11 @@ def main(tier, seed):
                                   "skipped_not_well_formed_or_unsafe": stats["not-well-formed-or-unsafe"]},
         "light_check_tie": {"descriptors": len(lines), "model_ne_code": light_diff, "rejected": light_rej},
         "doc_vs_code_classes": {c: len(l) for c, l in prop_fail.items()},
-        "api_behaviour": {"cases": len(bidx) - bsel.count("2"), "records": bstats["records"], "managers": mgrs,
+        "api_behaviour": {"cases": len(bidx) - bsel.count("2") - bsel.count("3"), "records": bstats["records"], "managers": mgrs,
                           "ok_rejected": bstats["ok-rejected"], "ok_accepted": bstats["ok-accepted"], "fail": bstats["fail"],
                           "skipped": bstats["skipped-unsafe-view"]},
         "sync_burst_api": {
-            "cases": len(sync_model), "cases_sync_only": bsel.count("2"), "records": sstats["records"], "fail": sstats["fail"],
+            "cases": len(sync_model), "cases_sync_only": bsel.count("2") + bsel.count("3"), "records": sstats["records"], "fail": sstats["fail"],
             "records_per_entry_point": {k[8:]: v for k, v in sstats.items() if k.startswith("records.")},
             "ok_accepted": sstats["ok-accepted"], "ok_accepted_nocheck": sstats["ok-accepted-nocheck"],
             "ok_rejected_by_job_validation": sstats["ok-rejected"], "ok_rejected_at_burst_level": sstats["ok-rejected-early"],
@@ -1194,7 +1195,7 @@ def replay(path):
         if sm and b_safe(sview, sm[1], SYNC_MAX_LEN) and b_safe(line, sm[1], SYNC_MAX_LEN):
             sync_model[0] = (skind, sm, searly)
     job_api = "api_records" not in r or any(x.get("api") in ("job", "burst") for x in r["api_records"]) or not sync_model
-    sel = ("1" if sync_model else "0") if job_api else "2"
+    sel = ("1" if sync_model else "0") if job_api else "3"
     recs, mg = run_real_b(exe, [line], prefix="replay.b", sel=sel)
     print("view:", line)
     print("catalogue/model:", model[0] if model else r["model"])
